@@ -121,6 +121,11 @@ TEMPLATES = [
     ('Struct("l"/Lazy(Struct("a"/Byte, "b"/Int16ub)), "t"/Byte)', [dict(l=dict(a=1, b=2), t=3)]),
     ('LazyStruct("a"/Byte, "b"/Prefixed(Byte, GreedyBytes), "c"/Int16ub)', [dict(a=1, b=b'xy', c=3)]),
     ('LazyArray(3, Prefixed(Byte, GreedyBytes))', [[b'a', b'', b'xyz']]),
+    # tag-length-value: the payload is chosen by one earlier field and sized by another (DepRT.dfrag)
+    ('Struct("t"/Byte, "n"/Byte, "v"/Switch(this.t, {1: Bytes(this.n), 2: Array(this.n, Int16ub)}, default=Pass), "f"/IfThenElse(this.t, VarInt, Pass))',
+     [dict(t=1, n=3, v=b'abc', f=5), dict(t=2, n=2, v=[258, 3], f=300), dict(t=0, n=9, v=None, f=None), dict(t=7, n=0, v=None, f=0), dict(t=True, n=1, v=b'z', f=1)]),
+    ('Array(2, Struct("k"/VarInt, "b"/Switch(this.k, {0: Struct("n"/Int16ul, "d"/Bytes(this.n)), 300: Padded(4, Byte)}, default=Int32sb)))',
+     [[dict(k=0, b=dict(n=2, d=b'hi')), dict(k=300, b=7)], [dict(k=5, b=-9), dict(k=0, b=dict(n=0, d=b''))]]),
     # read-to-end members behind fields that end off a byte boundary (the restreamed bit path keeps pending bits)
     ('BitStruct("tag"/Nibble, "rest"/GreedyBytes)', [dict(tag=5, rest=bytes([1, 0, 1, 1])), dict(tag=15, rest=bytes([1, 0, 1, 1] + [0, 1] * 4))]),
     ('Struct("h"/Byte, "b"/Bitwise(Struct("x"/BitsInteger(5), "y"/GreedyBytes)))', [dict(h=1, b=dict(x=17, y=bytes([1, 1, 0])))]),
@@ -176,8 +181,11 @@ def run(tier, seed):
              'BitsSwapped, ProcessXor, Hex, BitStruct, FocusedSeq, RawCopy) x 3 boundary-biased values of the domain x stream offsets 0 and 3, plus '
              'context-dependent templates in Sequence/FocusedSeq/Union/Lazy*/keyword contexts. Oracle: parse(build(v)) contains v and equals what '
              'build returned, and consumes exactly the emitted bytes. distinct = (shape, outcome)',
-        fragment='RT theorems are proved for the integer primitives at every width (props/C01.v); composites are tied by correspondence',
-        partial=['C01_roundtrip by induction over the construct syntax is not yet proved for composites'])
+        fragment='roundtrip_fragment: every construct of the closed sequential fragment frag (any depth, any position); dep_roundtrip: the '
+                 'dependent fragment dfrag (Struct members sized by earlier integer fields - Bytes/Array/Padded/FixedSized of this.n - or chosen '
+                 'by them - Switch / IfThenElse on this.k), props/C01.v',
+        partial=['outside frag / dfrag (strings, enums, adapters, bit-level, Rebuild/Default/Computed, lazies, greedy ranges, keyword contexts) the '
+                 'round trip is decided by correspondence + oracle'])
 
 
 def replay(payload):
